@@ -33,7 +33,10 @@ class EpochRules:
         for n in ('EnterEpoch', 'LeaveEpoch', 'GetProtectedEpoch', 'GetCurrentEpoch'):
             self.F['ep.' + n] = fx.fn(NS + 'component::Epoch::' + n)
         self.F['ep.Set'] = fx.fn(NS + 'component::Epoch::SetGrobalEpoch')
-        self.ctor = self.one([f for f in fx.functions.values() if f.get('record') == self.em['name'] and f['kind'] == 'ctor'], 'EpochManager()')
+        # constructors: the default constructor is the anchor; further constructors (a "resume from epoch" variant ...) are held
+        # to the same rules; copy / move constructors are a type-level matter (C04.TYPE)
+        self.ctors = [f for f in fx.functions.values() if f.get('record') == self.em['name'] and f['kind'] == 'ctor' and not f.get('copy_ctor') and not f.get('move_ctor')]
+        self.ctor = self.one([f for f in self.ctors if not f['params']] or self.ctors, 'EpochManager()')
         self.dtor = self.one([f for f in fx.functions.values() if f.get('record') == self.em['name'] and f['kind'] == 'dtor'], '~EpochManager')
         self.allfns = [f for f in fx.functions.values() if f['tu'] in ('epoch_manager.cpp', 'epoch.cpp', 'epoch_guard.cpp') and
                        (f.get('record') or '').startswith((self.em['name'], self.ep['name'], self.guard['name'])) and not eng.private_helper(f)]
@@ -98,13 +101,37 @@ class EpochRules:
                     val = v[3][0] if isinstance(v, tuple) and v[0] == 'obj' and v[3] else v
                     good = is_const(val) and val[1] == init
                     sink.emit('C16.INIT', 'ok' if good else 'violated', '%s starts at kInitialEpoch' % e['member'], self.loc(self.ctor, e.get('line')), 'initial value %s' % show(val))
+        # any further constructor: minimum and current epoch start equal (GetMinEpoch never exceeds a later GetCurrentEpoch), and
+        # the head node is the node of that epoch
+        for c in self.ctors:
+            if c['key'] == self.ctor['key']:
+                continue
+            for p in self.paths(c):
+                if p.end == 'throw':
+                    continue
+                vals = {}
+                for e in p.events:
+                    if e['kind'] == 'init' and e['member'] in (self.glob, self.minf):
+                        v = e['value']
+                        vals[e['member']] = v[3][0] if isinstance(v, tuple) and v[0] == 'obj' and v[3] else v
+                    elif e['kind'] == 'atomic' and is_write(e) and e['obj'][0] == 'field' and e['obj'][1] == S('this') and e['obj'][2] in (self.glob, self.minf):
+                        vals[e['obj'][2]] = e.get('value')
+                good = self.glob in vals and self.minf in vals and vals[self.glob] == vals[self.minf]
+                sink.emit('C16.INIT', 'ok' if good else 'violated', '%s starts the minimum epoch at the current epoch' % sname(c['key']), self.loc(c, p.ret_line),
+                          'both %s' % show(vals.get(self.glob)) if good else
+                          'current epoch starts at %s, minimum epoch at %s: GetMinEpoch can exceed GetCurrentEpoch until the first forward' % (show(vals.get(self.glob)), show(vals.get(self.minf))))
+        # C04.TYPE: guards and thread slots point into the manager: it is never copied or moved
+        badm = [m for m in self.em.get('methods', []) if m.get('kind') in ('copy_ctor', 'move_ctor', 'copy_assign', 'move_assign') and not m.get('deleted')]
+        sink.emit('C04.TYPE', 'ok' if not badm else 'violated', 'EpochManager is neither copyable nor movable', '%s:%s' % (self.em['file'], badm[0].get('line') if badm else self.em['line']),
+                  'copy / move operations deleted' if not badm else
+                  '%s is available: the guards alive at that moment keep pinning slots of the source object, which the new object never scans' % ', '.join(m['kind'] for m in badm))
         # who writes the two atomics
         fw = self.F['ForwardGlobalEpoch']
         for f in self.allfns:
             for p in self.paths(f):
                 for e in p.events:
                     if e['kind'] == 'atomic' and is_write(e) and e['obj'][0] == 'field' and e['obj'][2] in (self.glob, self.minf) and e['obj'][1] == S('this'):
-                        if f['key'] != fw['key']:
+                        if f['key'] != fw['key'] and f['key'] not in {c['key'] for c in self.ctors}:
                             sink.bad('C16.STEP', '%s writes %s' % (sname(f['name']), e['obj'][2]), self.loc(f, e['line']), 'only ForwardGlobalEpoch may write the epoch words')
         for p in self.paths(fw):
             gw = [e for e in p.events if e['kind'] == 'atomic' and is_write(e) and e['obj'] == ('field', S('this'), self.glob)]
@@ -606,6 +633,41 @@ class EpochRules:
                             (not calls or calls[0]['seq'] < min([e['seq'] for e in p.events if e['kind'] == 'assign' and not (e['path'] == ('field', S('this'), pf) and is_const(e['value']))] or [10 ** 9]))
                     sink.emit('C04.GUARD', 'ok' if good else 'violated', '%s %s path leaves the epoch %s' % (sname(f['name']), 'owning' if own else 'empty', 'exactly once' if own else 'never'),
                               self.loc(f, p.ret_line), '')
+        # any further member of the guard (an early Release(), a reset ...) keeps the books of the pin: on every path the pin held at
+        # entry is still held (pointer untouched, nothing left), or left exactly once and the guard emptied
+        for f in self.fx.functions.values():
+            if f.get('record') != gname or f['kind'] != 'method' or f.get('const') or f.get('move_assign') or f.get('copy_assign'):
+                continue
+            entry = S('this->' + pf)
+            for p in self.paths(f):
+                if p.end == 'throw':
+                    continue
+                final = p.store.get(('field', S('this'), pf), entry)
+                calls = [e for e in p.events if e['kind'] == 'call' and e.get('callee') == leave]
+                if final == entry and not calls:
+                    continue
+                own = cond_truth(p.conds, entry)
+                empty = is_const(final) and final[1] == 0
+                what = '%s keeps the books of the pin (held, or left once and the guard emptied)' % sname(f['name'])
+                gp = [q for q in f['params'] if q.get('isref') and q['type'].get('ct', '').replace('const ', '').strip() == gname]
+                if len(gp) == 1 and len(f['params']) == 1 and not calls:
+                    # swap(other): the two guards exchange their pins, none is taken or dropped
+                    other = S('&' + gp[0]['name'])
+                    of = p.store.get(('field', other, pf))
+                    if final == S(show(('field', other, pf))) and of == entry:
+                        sink.ok('C04.GUARD', what, self.loc(f, p.ret_line), 'the pin is exchanged with the other guard')
+                        continue
+                if own is False:
+                    sink.emit('C04.GUARD', 'ok' if not calls else 'violated', what, self.loc(f, p.ret_line), 'empty guard: nothing to leave')
+                elif len(calls) == 1 and calls[0]['obj'] == ('deref', entry) and empty:
+                    sink.ok('C04.GUARD', what, self.loc(f, p.ret_line), 'left once, guard emptied')
+                elif not calls and empty:
+                    sink.bad('C04.GUARD', what, self.loc(f, p.ret_line),
+                             'the guard is emptied without leaving the epoch: the destructor skips the leave, the slot keeps its pin for as long as the thread lives and the minimum epoch never advances')
+                elif calls and not empty:
+                    sink.bad('C04.GUARD', what, self.loc(f, p.ret_line), 'the epoch is left but the guard still refers to it: the destructor leaves again (a pin taken by a later guard of the thread is cleared)')
+                else:
+                    sink.bad('C04.GUARD', what, self.loc(f, p.ret_line), '%d leave call(s), %s = %s afterwards' % (len(calls), pf, show(final)))
         # the epoch a guard reports is the pin itself
         for f in self.fx.functions.values():
             if f.get('record') == gname and f['short'] == 'GetProtectedEpoch':
@@ -688,7 +750,7 @@ class EpochRules:
                 good = bool(sel)
             sink.emit('C17.OWN', 'ok' if good else 'violated', 'node lookup: first node whose range is not above the epoch, list = epoch & lower mask', self.loc(g, p.ret_line), '')
         # LIST.CONST: who mutates vectors
-        allowed = {self.F['CollectProtectedEpochs']['key'], self.ctor['key']}
+        allowed = {self.F['CollectProtectedEpochs']['key']} | {c['key'] for c in self.ctors}
         for f2 in self.allfns:
             for p in self.paths(f2):
                 for e in p.events:
@@ -927,6 +989,28 @@ class EpochRules:
         sink = self.sink
         # NODE.ALLOC
         fw = self.F['ForwardGlobalEpoch']
+        # C20.RETIRE: every forward retires.  A node becomes out-dated whenever the *set* of ranges holding a protected epoch
+        # shrinks (the head moves on, a guard in a middle range is released), which no cheaper test than the walk itself detects;
+        # a forward that skips the walk leaves such nodes linked, and the chain is no longer bounded by the ranges in use.  The
+        # only path that may skip it is one on which the chain is known to have a single node.
+        rm_key, col_key = self.F['RemoveOutDatedLists']['key'], self.F['CollectProtectedEpochs']['key']
+        for p in self.paths(fw):
+            if p.end == 'throw':
+                continue
+            def is_call(e, k):
+                return (e['kind'] == 'call' and e.get('callee') == k) or (e['kind'] == 'inline_begin' and e.get('callee') == k)
+            cols = [e for e in p.events if is_call(e, col_key)]
+            rms = [e for e in p.events if is_call(e, rm_key)]
+            single = any(isinstance(c, tuple) and c[0] == 'op' and show(c[2]) == 'this->%s->%s' % (self.head, self.nextf) and is_const(c[3]) and c[3][1] == 0 and
+                         ((c[1] == '==' and o) or (c[1] == '!=' and not o)) for c, o, _ in p.conds)
+            good = bool(rms) and (not cols or cols[-1]['seq'] < rms[-1]['seq'])
+            if good and rms[-1]['kind'] == 'call' and cols and cols[-1]['kind'] == 'call':
+                good = rms[-1]['args'][-1:] == cols[-1]['args'][-1:]
+            sink.emit('C20.RETIRE', 'ok' if (good or single) else 'violated', 'every forward walks the chain and retires the out-dated nodes, with the list it has just collected',
+                      self.loc(fw, p.ret_line),
+                      'RemoveOutDatedLists after CollectProtectedEpochs' if good else 'single-node chain' if single else
+                      'a path through ForwardGlobalEpoch does not call RemoveOutDatedLists on the collected list: nodes whose range lost its last protected epoch stay '
+                      'linked until some later forward happens to walk the chain; the memory is not bounded by the ranges in use')
         for f in self.allfns:
             for p in self.paths(f):
                 for e in p.events:
@@ -942,10 +1026,15 @@ class EpochRules:
                             look = [x for x in p.events if x['kind'] == 'call' and x.get('callee') == self.F['node.Get']['key']]
                             good = bool(look) and bool(asg) and all(x['seq'] > asg[0]['seq'] for x in look)
                             sink.emit('C20.ALLOC', 'ok' if good else 'violated', 'the new node is the head before the list of the next epoch is looked up', self.loc(f, e['line']), '')
-                        elif f['key'] == self.ctor['key']:
+                        elif f['key'] in {c['key'] for c in self.ctors}:
                             init = e.get('init')
                             good = isinstance(init, tuple) and init[0] == 'obj' and len(init[3]) == 2 and is_const(init[3][1]) and init[3][1][1] == 0
                             sink.emit('C20.ALLOC', 'ok' if good else 'violated', 'the initial node has no successor', self.loc(f, e['line']), show(init))
+                            news_c = [x for x in p.events if x['kind'] == 'new' and 'ProtectedNode' in x['type']]
+                            if len(news_c) > 1 and e is news_c[-1]:
+                                sink.bad('C20.ALLOC', '%s allocates one initial node' % sname(f['key']), self.loc(f, e['line']),
+                                         '%d nodes are allocated on a path through the constructor (a default member initialiser and the body?): all but the one that ends up as the head '
+                                         'are unreachable and never freed' % len(news_c))
                         else:
                             sink.bad('C20.ALLOC', '%s allocates a list node' % sname(f['name']), self.loc(f, e['line']), '')
         # a node is allocated exactly when the next epoch starts a new range: decided on every path of ForwardGlobalEpoch
